@@ -932,11 +932,13 @@ func fromIdentity(i *Identity) *schemahcl.Resource {
 			specutil.VarAttr("generated", strings.ToUpper(specutil.Var(i.Generation))),
 		},
 	}
+	// A zero value stands for "not set" (see identity), which is what
+	// evaluating a document without these attributes yields.
 	if s := i.Sequence; s != nil {
-		if s.Start != 1 {
+		if s.Start != 0 && s.Start != defaultSeqStart {
 			id.Attrs = append(id.Attrs, schemahcl.Int64Attr("start", s.Start))
 		}
-		if s.Increment != 1 {
+		if s.Increment != 0 && s.Increment != defaultSeqIncrement {
 			id.Attrs = append(id.Attrs, schemahcl.Int64Attr("increment", s.Increment))
 		}
 	}
